@@ -112,6 +112,10 @@ def run(tier):
         chk.clause('C20.D1', 'R3 oracle of the bridge per request')
         chk.clause('C20.D2', 'R10 caller arrays never written')
         kernels.run_factor(chk, 'C20.kern', prog, cfgname)
+        # the bridge always orders with COLAMD and post-orders: the perm_c it stores in the handle must be post o perm_c
+        from ..rules import preorder as _pre
+        chk.clause('C20.preorder', 'R3 oracle of sp_preorder (the handle keeps its perm_c)')
+        _pre.run(chk, 'C20.preorder', prog, eff, cfgname)
         from ..rules import r4_path
         r4_path.run(chk, 'C20.D3.path', prog, cfgname, units_prefix=('FORTRAN/',))
         n = 0
